@@ -190,6 +190,8 @@ def run(rep):
     arcs = readcore.writer_archives(mk)
     arcs += readcore.reference_archives(30000 if quick else 400000, limit=70 if quick else None)
     arcs += readcore.replicated_archives(130 if quick else 400)
+    images = readcore.decompressed_images()
+    arcs += [im for im in images if "zisofs" in im[0]] if quick else images
     rcases, meta = [], []
     for name, arc in arcs:
         small = len(arc) <= (6000 if quick else 8000)
@@ -203,7 +205,7 @@ def run(rep):
         variants = [("A", dict(source=(1,)))]
         # (seekable readers go back and read again: the plan is three passes long, so that the block size holds throughout)
         variants += [("A", dict(source=(0,), rplan=[sz] * (3 * (len(arc) // sz + 2)), has_skip=1, has_seek=1)) for sz in sizes]
-        if not small and len(arc) <= 40000 and readcore.MUST_REFS.search(name):
+        if not small and ((len(arc) <= 40000 and readcore.MUST_REFS.search(name)) or name.startswith("raw:")):
             # decoders that fetch single bytes behind the block they were given (PPMd range decoder, ...): blocks so
             # small that a symbol regularly needs more than the block has left
             variants += [("A", dict(source=(0,), rplan=[sz] * (3 * (len(arc) // sz + 2)), has_skip=1, has_seek=1)) for sz in (1, 3)]
